@@ -180,8 +180,13 @@ func runSend(newCfg func(n int) *refsmtp.Config, wrap func(n int, tc *faultio.Tr
 }
 
 func runSendT(newCfg func(n int) *refsmtp.Config, wrap func(n int, tc *faultio.TrackConn), opts []mail.Option, msgs []*mail.Msg, via string, tcp bool, timeout time.Duration) *sendRun {
+	return runSendF(&refsmtp.Farm{NewConfig: newCfg, Wrap: wrap, TCP: tcp}, opts, msgs, via, timeout)
+}
+
+// runSendF is runSendT over a farm the caller has configured (e.g. for implicit TLS).
+func runSendF(farm *refsmtp.Farm, opts []mail.Option, msgs []*mail.Msg, via string, timeout time.Duration) *sendRun {
 	sr := &sendRun{}
-	sr.Farm = &refsmtp.Farm{NewConfig: newCfg, Wrap: wrap, TCP: tcp}
+	sr.Farm = farm
 	base := []mail.Option{mail.WithDialContextFunc(sr.Farm.Dial), mail.WithTimeout(timeout), mail.WithHELO("client.verif.example")}
 	cl, err := mail.NewClient(netHost, append(base, opts...)...)
 	if err != nil {
